@@ -65,6 +65,10 @@ ANCHORS = [
 ]
 
 
+PORTFOLIO = {"hourly": [112, 113, 114, 115], "daily": [118, 119, 120, 121]}
+PORTFOLIO_PROFILE = {"hourly": "seed1", "daily": "default"}
+
+
 def _wchoice(rng, pairs):
     tot = sum(w for _, w in pairs)
     x = rng.random() * tot
@@ -156,13 +160,16 @@ class Gen:
                 rec["extra"] = True
         if dfam == "billing":
             rec["bill"] = r.choice(["monthly", "bimonthly"])
-        if self.mode == "C03" and dfam in ("daily", "hourly") and r.random() < 0.35:
-            # a portfolio normalised to unit mean over the same year: different meters that agree on every cheap
-            # fingerprint (length, first timestamp, mean) — what a cache with a lazy key would confuse
-            rec["norm"] = 1
-            rec["tz"] = "America/Chicago"
-            rec.pop("defect", None)
+        if self.mode == "C03" and dfam in ("daily", "hourly") and r.random() < 0.3:
+            return self._portfolio_base(dfam, r.choice(PORTFOLIO[dfam]))
         return rec
+
+    @staticmethod
+    def _portfolio_base(dfam, mid):
+        """A portfolio normalised to unit mean over the same year: different meters that agree on every cheap
+        fingerprint (length, first timestamp, mean) - what a cache with a lazy key would confuse.  The portfolio is
+        small on purpose, so that its keys recur across the runs of a batch in different orders."""
+        return {"fam": dfam, "role": "baseline", "mid": mid, "tz": "America/Chicago", "entry": "series", "norm": 1}
 
     def _reporting(self, base, span=None, obs=None, foreign_tz=False):
         r = self.rng
@@ -560,7 +567,7 @@ class Gen:
         if forced:
             self.prelude(m0, base0)
         weights = {
-            "make_reporting": 3, "make_baseline": 1.2, "fit": 1.6, "fit_shared": 0.5, "refit_key": 0.4, "refit_other": 0.5, "predict": 7,
+            "make_reporting": 3, "make_baseline": 1.2, "fit": 1.6, "fit_shared": 0.5, "refit_key": 0.4, "refit_other": 0.5, "portfolio": 0.0, "predict": 7,
             "predict_odd": 0.6, "pair": 1.0, "store": 1.6, "load": 1.6, "store_load_predict": 0.8, "crash": 0.5,
             "scribble_data": 0.5, "scribble_pred": 0.5, "abort_sweep": 0.15, "inspect": 0.4, "new_model": 0.25, "fault": 1.6,
         }
@@ -568,13 +575,15 @@ class Gen:
             "C01": {"store": 2.5, "load": 2.5, "store_load_predict": 4, "crash": 2.5, "fit": 1.3, "refit_other": 2},
             "C02": {"predict": 1.4, "refit_other": 2, "abort_sweep": 5, "scribble_data": 2, "scribble_pred": 2, "fit_shared": 3, "inspect": 2,
                     "make_reporting": 1.3},
-            "C03": {"refit_key": 9, "refit_other": 2, "fit": 1.5, "fault": 2.5, "crash": 1.5, "predict": 0.6},
+            "C03": {"refit_key": 9, "refit_other": 2, "portfolio": 1, "fit": 1.5, "fault": 2.5, "crash": 1.5, "predict": 0.6},
             "C04": {"new_model": 4, "predict_odd": 5, "make_baseline": 2.5, "fit": 2, "store_load_predict": 2,
                     "fit_shared": 2, "refit_other": 4},
             "C05": {"pair": 9, "predict": 1.2, "make_reporting": 1.4, "store_load_predict": 1.5},
         }[mode]
         for k, v in mult.items():
             weights[k] *= v
+        if mode == "C03":
+            weights["portfolio"] = 2.0
         if not sw["faults"]["crash"]:
             weights["crash"] = 0
         if not any(sw["faults"][k] for k in ("thread", "blas", "clock", "rng")):
@@ -658,6 +667,15 @@ class Gen:
                 dd = self._data_for(ms)
                 if dd:
                     self.predict(ms, dd[-1], ignore=True)
+            elif op == "portfolio":
+                # two or three meters of the normalised portfolio, in a drawn order, with the standard profile
+                fams = [f for f in ("hourly", "daily") if f in sw["families"]]
+                if not fams or self.n_fit >= 7:
+                    continue
+                fam = r.choice(fams)
+                for mid in r.sample(PORTFOLIO[fam], r.choice([2, 2, 3])):
+                    d = self.make_data(self._portfolio_base(fam, mid))
+                    self.fit(fam, d, profile=PORTFOLIO_PROFILE[fam], ignore=True, allow_abort=False)
             elif op == "predict":
                 if not fitted:
                     continue
